@@ -455,13 +455,22 @@ class Vh:
         assert self.p.stdin and self.p.stdout
         self.p.stdin.write(json.dumps(kw) + "\n")
         self.p.stdin.flush()
-        line = self.p.stdout.readline()
+        line = self._readline(kw)
         if not line:
             raise MachineryError(f"vh died on {cmd}")
         r = json.loads(line)
         if not r.get("ok"):
             raise VhError(r.get("err") or r.get("panic") or "error", panic="panic" in r)
         return r["r"]
+
+    def _readline(self, req: Any, timeout: float = 120.0) -> str:
+        import select
+        assert self.p.stdout
+        r, _, _ = select.select([self.p.stdout], [], [], timeout)
+        if not r:
+            self.p.kill()
+            raise VhTimeout(f"vh did not answer within {timeout}s: {json.dumps(req)[:300]}")
+        return self.p.stdout.readline()
 
     def batch(self, reqs: List[Dict[str, Any]]) -> List[Dict[str, Any]]:
         """Send many requests, return raw responses (ok/err objects)."""
@@ -486,6 +495,10 @@ class Vh:
             self.p.wait(timeout=5)
         except Exception:
             self.p.kill()
+
+
+class VhTimeout(Exception):
+    pass
 
 
 class VhError(Exception):
@@ -680,3 +693,83 @@ def pmap(func: Callable[[Any], Any], args: List[Any], procs: Optional[int] = Non
     ctx = mp.get_context("fork")
     with ctx.Pool(procs) as pool:
         return pool.map(func, args)
+
+
+def tlc_judge_trace(pid: str, spec_dir: Path, module: str, cfg: str, events: List[Any], tag: str, heap: str = "2g") -> List[Dict[str, Any]]:
+    """Write events as ndjson, run the Trace* specification over them (single worker, linear
+    behaviour), return the collected `bad` records printed as <<"BAD", n, set>>."""
+    d = scratch(pid)
+    tf = d / f"trace-{tag}.ndjson"
+    write_ndjson(tf, events)
+    res = run_tlc(spec_dir, module, cfg, workers=1, env={"TRACE_FILE": str(tf)}, tag=f"{pid}-trace-{tag}", timeout=3000, heap=heap)
+    bad = None
+    for v in res.printed():
+        if isinstance(v, tuple) and len(v) == 3 and v[0] == "BAD":
+            bad = v
+    if bad is None or not res.ok:
+        raise MachineryError(f"trace validation did not complete ({pid} {tag}):\n{res.out[-2500:]}")
+    tf.unlink()
+    return [dict(b) for b in bad[2]]
+
+
+def _campaign_job(arg):
+    pid, spec_dir, module, cfg, drive_fn, shard_id, items, tag, extra = arg
+    events, meta = drive_fn(shard_id, items, extra)
+    if not events:
+        return (0, 0, [], {})
+    bad = tlc_judge_trace(pid, spec_dir, module, cfg, events, f"{tag}-{shard_id}")
+    badmeta = {b["tid"]: meta.get(b["tid"]) for b in bad}
+    return (len(meta), len(events), bad, badmeta)
+
+
+def trace_campaign(pid: str, spec_dir: Path, module: str, cfg: str, items: List[Any], drive_fn: Callable, tag: str,
+                   extra: Any = None, procs: Optional[int] = None):
+    """Shard `items` (behaviours / seeds), drive the implementation in worker processes
+    (drive_fn(shard_id, items, extra) -> (events, {tid: meta})), TLC-judge each shard's trace file.
+    Returns (n_traces, n_events, [(bad_record, meta)])."""
+    shards = shard_list(items, procs or NCPU)
+    res = pmap(_campaign_job, [(pid, spec_dir, module, cfg, drive_fn, i, sh, tag, extra) for i, sh in enumerate(shards)], procs)
+    ntr = sum(r[0] for r in res)
+    nev = sum(r[1] for r in res)
+    bad = []
+    for r in res:
+        for b in r[2]:
+            bad.append((b, r[3].get(b["tid"])))
+    return ntr, nev, bad
+
+
+def sim_behaviours(spec_dir: Path, module: str, cfg: str, n: int, depth: int, seed: int, tag: str, var: str = "acts") -> Tuple[List[Any], "TlcResult"]:
+    """`tlc -simulate`: n behaviours of given depth; returns the final value of history variable `var` of each."""
+    d = BUILD / "work" / tag / "sim"
+    if d.exists():
+        shutil.rmtree(d)
+    d.mkdir(parents=True, exist_ok=True)
+    res = run_tlc(spec_dir, module, cfg, workers=1, simulate=f"file={d}/tr,num={n}", extra=["-depth", str(depth), "-seed", str(seed)], tag=f"{tag}-sim", timeout=1800)
+    out = []
+    for f in sorted(d.iterdir()):
+        steps = parse_sim_file(f)
+        if steps:
+            v = steps[-1][1].get(var)
+            if v:
+                out.append(v)
+    shutil.rmtree(d, ignore_errors=True)
+    return out, res
+
+
+def dump_behaviours(spec_dir: Path, module: str, cfg: str, tag: str, var: str = "acts", coverage: bool = True, timeout: int = 3000) -> Tuple[List[Any], "TlcResult"]:
+    """Exhaustive TLC run with a state dump; returns the value of history variable `var` in every
+    reachable state (each state with a history is one replayable behaviour)."""
+    d = BUILD / "work" / tag
+    d.mkdir(parents=True, exist_ok=True)
+    dump_path = d / f"{cfg}.dump"
+    extra = ["-dump", str(dump_path)] + (["-coverage", "1"] if coverage else [])
+    res = run_tlc(spec_dir, module, cfg, workers=NCPU, extra=extra, tag=f"{tag}-{cfg}", timeout=timeout)
+    out = []
+    if dump_path.exists():
+        text = dump_path.read_text()
+        for m in re.finditer(r"/\\ " + var + r" = (.*?)(?=\n/\\ |\n\nState |\Z)", text, re.S):
+            v = parse_tla(m.group(1).strip())
+            if v:
+                out.append(v)
+        dump_path.unlink()
+    return out, res
